@@ -364,9 +364,24 @@ impl Prop for C18 {
                     threads: *rng.pick(&[1usize, 1, 1, 1, 1, 1, 1, 1, 1, 2, 4, 7]),
                 }
             }
-            6 | 7 => Work::NpyRead {
-                npy: gen::gen_npy_spec(&mut rng, 4, 5, 64),
-            },
+            6 | 7 => {
+                if rng.chance(1, 6) {
+                    // large value sections: readers may take other paths for large buffers
+                    let n = rng.range(1024, 2300);
+                    let mut s = gen::gen_npy_spec(&mut rng, 1, 2, 2);
+                    s.shape = vec![n];
+                    s.raw = (0..n).map(|i| (i % 251) as i64).collect();
+                    if rng.chance(2, 3) {
+                        s.dtype = "f8".into();
+                        s.endian = '<';
+                    }
+                    Work::NpyRead { npy: s }
+                } else {
+                    Work::NpyRead {
+                        npy: gen::gen_npy_spec(&mut rng, 4, 5, 64),
+                    }
+                }
+            }
             _ => Work::Write {
                 spec: gen::gen_spec(&mut rng, 4, 5, 96, false),
                 npy: rng.chance(1, 2),
@@ -384,11 +399,30 @@ impl Prop for C18 {
         let is_write = matches!(work, Work::Write { .. });
         let sweep_cap = if thorough { 2048 } else { 600 };
         let mode = match rng.below(10) {
-            0..=2 if !is_write && len <= 300_000 => Mode::FirstChunkSweep {
-                lo: 1,
-                hi: len.min(sweep_cap).max(1),
-                rest: *rng.pick(&[1usize, 7, 64, 8192, 65536, 65536]),
-            },
+            0..=2 if !is_write && len <= 300_000 => {
+                // inputs longer than the sweep bound: the window of first-chunk lengths moves with
+                // the seed, preferring the neighbourhood of buffer-size boundaries
+                let (lo, hi) = if len <= sweep_cap {
+                    (1, len.max(1))
+                } else {
+                    let centres: Vec<usize> = [512usize, 1024, 4096, 8192, 16384, 65536]
+                        .iter()
+                        .flat_map(|&p| [p, p + 64, p + 128, p + 192])
+                        .filter(|&c| c + 20 < len)
+                        .collect();
+                    let lo = match rng.below(3) {
+                        0 => 1,
+                        1 if !centres.is_empty() => rng.pick(&centres).saturating_sub(rng.range(0, sweep_cap / 2)).max(1),
+                        _ => rng.range(1, len - sweep_cap),
+                    };
+                    (lo, (lo + sweep_cap - 1).min(len))
+                };
+                Mode::FirstChunkSweep {
+                    lo,
+                    hi,
+                    rest: *rng.pick(&[1usize, 7, 64, 8192, 65536, 65536]),
+                }
+            }
             3..=5 => {
                 let kinds: &[ErrKind] = if is_write { &ErrKind::WRITE_KINDS } else { &ErrKind::READ_KINDS };
                 let stride = if len > sweep_cap { len / sweep_cap + 1 } else { 1 };
@@ -411,7 +445,7 @@ impl Prop for C18 {
         };
         Case::L1 {
             work,
-            bufcap: *rng.pick(&BUFCAPS),
+            bufcap: if len > 8192 && rng.chance(1, 2) { 65536 } else { *rng.pick(&BUFCAPS) },
             mode,
         }
     }
